@@ -1,0 +1,62 @@
+//go:build verif
+
+package tracker
+
+import (
+	"bytes"
+	"context"
+	"net"
+	"net/netip"
+	nurl "net/url"
+	"time"
+)
+
+// Entry points for the verification harness (/verif); build tag "verif".
+
+// VerifUDPRequestReply runs the retransmission loop over the given connection.
+func VerifUDPRequestReply(ctx context.Context, conn net.Conn, request []byte,
+	min int, action uint32, tid uint32) (*bytes.Reader, error) {
+	return udpRequestReply(ctx, conn, request, min, action, tid)
+}
+
+// VerifAnnounceUDP performs a single-family UDP announce.
+func VerifAnnounceUDP(ctx context.Context, prot string, f func(netip.AddrPort) bool,
+	url string, hash, myid []byte, want int, size int64, port int) (time.Duration, error) {
+	u, err := nurl.Parse(url)
+	if err != nil {
+		return 0, err
+	}
+	return announceUDP(ctx, prot, f, u, hash, myid, want, size, port, "")
+}
+
+// VerifAnnounceHTTP performs a single-family HTTP announce.
+func VerifAnnounceHTTP(ctx context.Context, protocol string, t *HTTP,
+	hash, myid []byte, want int, size int64, port int,
+	f func(netip.AddrPort) bool) (int, error) {
+	return announceHTTP(ctx, protocol, t, hash, myid, want, size, port, "", f)
+}
+
+func verifBase(t Tracker) *base {
+	switch t := t.(type) {
+	case *HTTP:
+		return &t.base
+	case *UDP:
+		return &t.base
+	case *Unknown:
+		return &t.base
+	}
+	return nil
+}
+
+// VerifAge makes the tracker's last attempt look d older.
+func VerifAge(t Tracker, d time.Duration) {
+	b := verifBase(t)
+	b.time = b.time.Add(-d)
+}
+
+// VerifTiming returns the time since the last attempt, the interval in
+// force and whether the tracker is locked.
+func VerifTiming(t Tracker) (since time.Duration, interval time.Duration, locked bool, hasErr bool) {
+	b := verifBase(t)
+	return time.Since(b.time), b.interval, b.locked != 0, b.err != nil
+}
